@@ -34,7 +34,7 @@ func c13EnvBlocked() c13Blocked {
 	var r c13Blocked
 	sites := map[string]bool{}
 	for _, g := range strings.Split(dump, "\n\n") {
-		if !strings.Contains(g, "main.init.") || !strings.Contains(g, "c13.go") || !strings.Contains(g, "github.com/mattn/anko/env.") {
+		if !(strings.Contains(g, "main.init.") || strings.Contains(g, "main.c13Owners")) || !strings.Contains(g, "c13.go") || !strings.Contains(g, "github.com/mattn/anko/env.") {
 			continue
 		}
 		r.workers++
@@ -80,23 +80,31 @@ func init() {
 	wk.Register(&wk.Engine{
 		ID: "C13",
 		Plan: func(tier string) fw.Plan {
-			nSched, nRace := 160, 24
+			// one sched case in eight is a long-history configuration; the numbers keep the
+			// count of short configurations at 161 / 8001
+			nSched, nRace, nOwn := 184, 24, 9
 			if tier == "thorough" {
-				nSched, nRace = 8000, 400
+				nSched, nRace, nOwn = 9144, 400, 200
 			}
 			return fw.Plan{
 				Level: "exploration",
-				Rule:  "phase sched: PRNG configurations of 2-3 goroutines x 2-4 operations from {Define, Set, Get, Delete, DeleteGlobal, Copy(+read of the copy), GetValueSymbols, DefineType, Type, GetTypeSymbols, String} on one shared child scope with a read-only parent, unique values per write; the env package of a scratch copy of the repository is rewritten so that every Lock/RLock/Unlock/RUnlock is a scheduling point of a cooperative scheduler (one runnable goroutine, simulated writer-preferring RW lock, deadlock = nothing enabled); every schedule with at most 2 preemptions is enumerated depth-first (up to a cap per configuration; configurations completed under the cap are tagged exhaustive) plus random schedules; each execution's call/return history on the scheduler's logical clock, closed by a read of the final state, is checked by porcupine against a sequential dictionary model. phase race: 8-32 goroutines x hundreds of mixed operations incl. DeepCopy, NewModule, GetEnvFromPath, Addr, DefineGlobal, SetExternalLookup on shared scopes under the Go race detector at GOMAXPROCS 2 and 16. Non-trivial = an execution with at least two goroutines interleaved; distinct = distinct (initial state, history).",
+				Rule:  "phase sched: PRNG configurations of 2-3 goroutines x 2-4 operations from {Define, Set, Get, Delete, DeleteGlobal, Copy(+read of the copy), GetValueSymbols, DefineType, Type, GetTypeSymbols, String} on one shared child scope with a read-only parent, unique values per write; the env package of a scratch copy of the repository is rewritten so that every Lock/RLock/Unlock/RUnlock is a scheduling point of a cooperative scheduler (one runnable goroutine, simulated writer-preferring RW lock, deadlock = nothing enabled); every schedule with at most 2 preemptions is enumerated depth-first (up to a cap per configuration; configurations completed under the cap are tagged exhaustive) plus random schedules; each execution's call/return history on the scheduler's logical clock, closed by a read of the final state, is checked by porcupine against a sequential dictionary model. One sched case in eight is a long-history configuration: the scope has already seen 0-300 Define/Delete cycles, and 2-3 goroutines run 32-85 operations each (twice that in the thorough tier), mostly on symbols only that goroutine writes (one it sets and reads back, short-lived ones it defines and deletes, ones it defines for good) plus reads of the others' symbols, a contended symbol, listings and copies; the unpreempted schedules and 36 (120) random schedules with a per-schedule switch probability between 1/2 and 1/64 are run and each history is checked by porcupine in full (the signature names the anomaly by the single-writer symbols). phase race: 8-32 goroutines x hundreds of mixed operations incl. DeepCopy, NewModule, GetEnvFromPath, Addr, DefineGlobal, SetExternalLookup on shared scopes under the Go race detector at GOMAXPROCS 2 and 16. phase owners: 4-12 goroutines x 1000-2500 operations on one shared scope under the race detector; every goroutine writes only its own symbols (a counter symbol, seven short-lived symbols it defines and deletes, symbols defined for good), so that each one-at-a-time ordering consistent with its own order fixes what it reads back from them in Get, GetValueSymbols and Copy, what the others may read of its counter (never an older value than before) and what is left at the end. Non-trivial = an execution with at least two goroutines interleaved; distinct = distinct (initial state, history).",
 				Assumptions: []string{"scheduling points at lock operations and operation boundaries suffice: code between a release and the same goroutine's next acquisition touches shared state only if it is unsynchronised, which the race phase covers",
 					"the rewrite (sync.RWMutex/sync.Mutex -> verifsync types in env/*.go) preserves the code otherwise; a tree whose env package has no such mutex fails the build of this check rather than passing",
-					"SetExternalLookup (an immutable lookup object) and DefineGlobal take part in the race phase only"},
+					"SetExternalLookup (an immutable lookup object) and DefineGlobal take part in the race phase only",
+					"phases race and owners run on the schedules the Go runtime happens to produce; the single-writer oracle of phase owners judges only results that every ordering consistent with the goroutines' own orders determines"},
 				Phases: []fw.Phase{
 					{Name: "sched", Cases: nSched, Chunk: 10, Builder: "c13sched", TimeoutS: 900},
 					{Name: "race", Race: true, Cases: nRace, Chunk: 3, TimeoutS: 900, Jobs: 8},
+					{Name: "owners", Race: true, Cases: nOwn, Chunk: 3, TimeoutS: 900, Jobs: 8},
 				},
 			}
 		},
 		Run: func(c *wk.Case) {
+			if c.Phase == "owners" {
+				c13Owners(c)
+				return
+			}
 			if c.Phase != "race" {
 				return
 			}
@@ -257,4 +265,288 @@ func init() {
 			}
 		},
 	})
+}
+
+// c13Owners: stress with single-writer symbols. Goroutine g is the only one that ever writes
+// (Define/Set/Delete) the symbols w<g>, t<g>_<j> and f<g>_<n> of the shared scope; none of them
+// exists in the parent. In every one-at-a-time ordering that respects g's own order
+//   - a Get by g of one of its symbols returns what g wrote last (an error after a Delete),
+//   - a GetValueSymbols / Copy by g shows g's symbols exactly as g left them,
+//   - the values another goroutine reads of w<g> (g only ever writes growing numbers and never
+//     deletes it) never go back,
+//   - at the end every symbol is as its owner left it.
+//
+// Everything else (what is read of foreign short-lived symbols, how the goroutines interleave) is
+// left open. The race detector runs alongside.
+func c13Owners(c *wk.Case) {
+	procs := []int{2, 16, 4}[c.Index%3]
+	old := runtime.GOMAXPROCS(procs)
+	defer runtime.GOMAXPROCS(old)
+	root := env.NewEnv()
+	root.Define("kp", "P")
+	shared := root.NewEnv()
+	ng := 4 + c.Rng.Intn(9)
+	nops := 1000 + c.Rng.Intn(1501)
+	seeds := make([]int64, ng)
+	for i := range seeds {
+		seeds[i] = c.Rng.Int63()
+	}
+	for g := 0; g < ng; g++ {
+		shared.Define(fmt.Sprintf("w%d", g), 0)
+	}
+	input := map[string]interface{}{"phase": "owners", "goroutines": ng, "ops": nops, "gomaxprocs": procs}
+	c.Begin(input)
+
+	type state struct {
+		w     int            // last value written to w<g>
+		temp  map[string]int // short-lived symbols currently defined by g
+		fresh map[string]int // symbols defined for good
+		gone  map[string]bool
+	}
+	var mu sync.Mutex
+	viol := map[string]string{}
+	report := func(sig, detail string) {
+		mu.Lock()
+		if _, ok := viol[sig]; !ok {
+			viol[sig] = detail
+		}
+		mu.Unlock()
+	}
+	counts := map[string]int{}
+	panics := []string{}
+	states := make([]*state, ng)
+	var wg sync.WaitGroup
+	start := make(chan struct{})
+	for g := 0; g < ng; g++ {
+		wg.Add(1)
+		st := &state{temp: map[string]int{}, fresh: map[string]int{}, gone: map[string]bool{}}
+		states[g] = st
+		go func(g int) {
+			defer wg.Done()
+			defer func() {
+				if r := recover(); r != nil {
+					mu.Lock()
+					panics = append(panics, fmt.Sprint(r))
+					mu.Unlock()
+				}
+			}()
+			x := uint64(seeds[g]) | 1
+			next := func(n int) int {
+				x ^= x << 13
+				x ^= x >> 7
+				x ^= x << 17
+				return int(x % uint64(n))
+			}
+			me := fmt.Sprintf("w%d", g)
+			seen := make([]int, ng) // last value read of w<h>
+			local := map[string]int{}
+			// checkOwn compares what a lookup function shows of g's symbols with what g left
+			checkOwn := func(what string, get func(string) (interface{}, error)) {
+				if v, err := get(me); err != nil || v != st.w {
+					report("owned-symbol:"+what+":own-write-not-read-back", fmt.Sprintf("goroutine %d wrote %s=%d last and nobody else writes it, but %s shows %v (error %v)", g, me, st.w, what, v, err))
+				}
+				for k, want := range st.temp {
+					if v, err := get(k); err != nil || v != want {
+						report("owned-symbol:"+what+":own-write-not-read-back", fmt.Sprintf("goroutine %d wrote %s=%d last and nobody else writes it, but %s shows %v (error %v)", g, k, want, what, v, err))
+					}
+				}
+				for k, want := range st.fresh {
+					if v, err := get(k); err != nil || v != want {
+						report("owned-symbol:"+what+":own-define-lost", fmt.Sprintf("goroutine %d defined %s=%d, nobody deletes or writes it, but %s shows %v (error %v)", g, k, want, what, v, err))
+					}
+				}
+				for k := range st.gone {
+					if v, err := get(k); err == nil {
+						report("owned-symbol:"+what+":own-deleted-symbol-visible", fmt.Sprintf("goroutine %d deleted %s last and nobody else defines it, but %s shows %v", g, k, what, v))
+					}
+				}
+			}
+			<-start
+			for i := 1; i <= nops; i++ {
+				var name string
+				switch r := next(32); {
+				case r < 8:
+					k := fmt.Sprintf("t%d_%d", g, next(7))
+					if err := shared.Define(k, i); err != nil {
+						report("owned-symbol:define-fails", fmt.Sprintf("Define(%s): %v", k, err))
+					}
+					st.temp[k] = i
+					delete(st.gone, k)
+					name = "Define"
+				case r < 15:
+					k := fmt.Sprintf("t%d_%d", g, next(7))
+					if next(5) == 0 {
+						shared.DeleteGlobal(k)
+						name = "DeleteGlobal"
+					} else {
+						shared.Delete(k)
+						name = "Delete"
+					}
+					delete(st.temp, k)
+					st.gone[k] = true
+				case r < 19:
+					var err error
+					if next(4) == 0 {
+						err = shared.Define(me, i)
+						name = "Define"
+					} else {
+						err = shared.Set(me, i)
+						name = "Set"
+					}
+					if err != nil {
+						report("owned-symbol:"+name+":own-symbol-gone", fmt.Sprintf("goroutine %d: %s(%s, %d) fails though the symbol was defined before the start and nobody deletes it: %v", g, name, me, i, err))
+					}
+					st.w = i
+				case r < 22:
+					v, err := shared.Get(me)
+					if err != nil || v != st.w {
+						report("owned-symbol:Get:own-write-not-read-back", fmt.Sprintf("goroutine %d wrote %s=%d last and nobody else writes it, but Get returns %v (error %v)", g, me, st.w, v, err))
+					}
+					name = "Get"
+				case r < 24:
+					k := fmt.Sprintf("t%d_%d", g, next(7))
+					v, err := shared.Get(k)
+					if want, ok := st.temp[k]; ok && (err != nil || v != want) {
+						report("owned-symbol:Get:own-write-not-read-back", fmt.Sprintf("goroutine %d wrote %s=%d last and nobody else writes it, but Get returns %v (error %v)", g, k, want, v, err))
+					} else if !ok && err == nil {
+						report("owned-symbol:Get:own-deleted-symbol-visible", fmt.Sprintf("goroutine %d deleted %s last (or never defined it) and nobody else defines it, but Get returns %v", g, k, v))
+					}
+					name = "Get"
+				case r < 27:
+					h := next(ng)
+					v, err := shared.Get(fmt.Sprintf("w%d", h))
+					n, isInt := v.(int)
+					if err != nil || !isInt {
+						report("owned-symbol:Get:foreign-symbol-gone", fmt.Sprintf("goroutine %d: Get(w%d) = %v, %v though the symbol was defined before the start and nobody deletes it", g, h, v, err))
+					} else if n < seen[h] {
+						report("owned-symbol:Get:foreign-read-went-back", fmt.Sprintf("goroutine %d read w%d=%d and later w%d=%d; its only writer writes growing numbers", g, h, seen[h], h, n))
+					} else {
+						seen[h] = n
+					}
+					name = "Get"
+				case r == 27:
+					if len(st.fresh) < 24 {
+						k := fmt.Sprintf("f%d_%d", g, len(st.fresh))
+						if err := shared.Define(k, i); err != nil {
+							report("owned-symbol:define-fails", fmt.Sprintf("Define(%s): %v", k, err))
+						}
+						st.fresh[k] = i
+					}
+					name = "Define"
+				case r == 28:
+					k := fmt.Sprintf("f%d_%d", g, next(24))
+					v, err := shared.Get(k)
+					if want, ok := st.fresh[k]; ok && (err != nil || v != want) {
+						report("owned-symbol:Get:own-define-lost", fmt.Sprintf("goroutine %d defined %s=%d, nobody deletes or writes it, but Get returns %v (error %v)", g, k, want, v, err))
+					}
+					name = "Get"
+				case r == 29:
+					listed := map[string]bool{}
+					for _, k := range shared.GetValueSymbols() {
+						listed[k] = true
+					}
+					checkOwn("GetValueSymbols", func(k string) (interface{}, error) {
+						if !listed[k] {
+							return nil, fmt.Errorf("not listed")
+						}
+						// listed: the value is not part of a listing, hand back the expected one
+						if k == me {
+							return st.w, nil
+						}
+						if v, ok := st.temp[k]; ok {
+							return v, nil
+						}
+						return st.fresh[k], nil
+					})
+					name = "GetValueSymbols"
+				case r == 30:
+					// the copy is private to this goroutine
+					var cp *env.Env
+					if next(2) == 0 {
+						cp, name = shared.Copy(), "Copy"
+					} else {
+						cp, name = shared.DeepCopy(), "DeepCopy"
+					}
+					checkOwn(name, cp.Get)
+				default:
+					_ = shared.String()
+					name = "String"
+				}
+				local[name]++
+				if next(16) == 0 {
+					runtime.Gosched()
+				}
+			}
+			mu.Lock()
+			for k, v := range local {
+				counts[k] += v
+			}
+			mu.Unlock()
+		}(g)
+	}
+	close(start)
+	finished := make(chan struct{})
+	go func() { wg.Wait(); close(finished) }()
+	select {
+	case <-finished:
+	case <-time.After(120 * time.Second):
+		// as in phase race: decided from goroutine states, not from the clock
+		s1 := c13EnvBlocked()
+		time.Sleep(500 * time.Millisecond)
+		s2 := c13EnvBlocked()
+		if s1.blocked > 0 && s1.blocked == s1.workers && s2.blocked == s2.workers && s1.where == s2.where {
+			c.Violation("deadlock-in-env:"+s1.where, fmt.Sprintf("all %d unfinished worker goroutines are parked on the environment's mutex in two samples (%s)", s1.workers, s1.where), input)
+		} else {
+			c.Inconclusive("owners-stress-watchdog", fmt.Sprintf("workers=%d blocked=%d / workers=%d blocked=%d", s1.workers, s1.blocked, s2.workers, s2.blocked), input)
+		}
+		c.Bail()
+	}
+	// the final state: every symbol as its owner left it
+	if len(panics) == 0 {
+		listed := map[string]bool{}
+		for _, k := range shared.GetValueSymbols() {
+			listed[k] = true
+		}
+		for g, st := range states {
+			exp := map[string]int{fmt.Sprintf("w%d", g): st.w}
+			for k, v := range st.temp {
+				exp[k] = v
+			}
+			for k, v := range st.fresh {
+				exp[k] = v
+			}
+			for k, want := range exp {
+				if v, err := shared.Get(k); err != nil || v != want || !listed[k] {
+					report("owned-symbol:final-state:own-write-missing", fmt.Sprintf("goroutine %d left %s=%d and nobody else writes it, but at the end Get returns %v (error %v), listed=%v", g, k, want, v, err, listed[k]))
+				}
+			}
+			for k := range st.gone {
+				if v, err := shared.Get(k); err == nil || listed[k] {
+					report("owned-symbol:final-state:own-deleted-symbol-visible", fmt.Sprintf("goroutine %d deleted %s last and nobody else defines it, but at the end Get returns %v, listed=%v", g, k, v, listed[k]))
+				}
+			}
+		}
+	}
+	total := 0
+	for k, v := range counts {
+		c.Count("owners_ops:"+k, v)
+		total += v
+	}
+	c.Events(total)
+	c.Eval(fmt.Sprintf("owners-stress g=%d ops=%d procs=%d seed0=%d", ng, nops, procs, seeds[0]), true)
+	c.Tag(fmt.Sprintf("owners-gomaxprocs:%d", procs))
+	if len(panics) > 0 {
+		c.Violation("panic-in-concurrent-env-operation", panics[0], input)
+	}
+	var sigs []string
+	for sig := range viol {
+		sigs = append(sigs, sig)
+	}
+	sort.Strings(sigs)
+	for _, sig := range sigs {
+		c.Violation(sig, viol[sig], input)
+	}
+	if c.WantSample() {
+		c.Sample(map[string]interface{}{"phase": "owners", "goroutines": ng, "ops_per_goroutine": nops, "gomaxprocs": procs, "operation_counts": counts})
+	}
 }
